@@ -38,6 +38,8 @@ func GenCase(t *rapid.T, bias Bias, stratum int) Case {
 		// MaxAttempts left unset, or set to something that is not a count: the default of 10 applies
 		c.MaxAttempts = rapid.SampledFrom([]int{0, -1}).Draw(t, "unsetAttempts")
 	}
+	// the pre-0.4 constructor copies the configuration (balancer, limits, acks) into a Writer
+	c.ViaNewWriter = rapid.IntRange(0, 7).Draw(t, "viaNewWriter") == 0
 	nTopics := 1
 	if !c.WriterTopic && rapid.Bool().Draw(t, "twoTopics") {
 		nTopics = 2
